@@ -396,3 +396,38 @@ long request_good(carquet_column_reader_t* r, long remaining, long batch) {
     free(buf);
     return got;
 }
+
+/* ---- R33 signed offset: decoded lengths are sign-checked before they move a pointer */
+int ctl_decode_i32(const uint8_t* in, size_t n, int32_t* out, int count);
+int signed_off_bad(const uint8_t* in, size_t n, uint8_t* work, int count) {
+    int32_t* pre = (int32_t*)malloc(sizeof(int32_t) * (size_t)count);
+    int32_t* suf = (int32_t*)malloc(sizeof(int32_t) * (size_t)count);
+    if (!pre || !suf) { free(pre); free(suf); return -1; }
+    ctl_decode_i32(in, n, pre, count);
+    ctl_decode_i32(in, n, suf, count);
+    for (int i = 0; i < count; i++) {
+        if (suf[i] < 0 || (long)pre[i] + suf[i] < 0) { free(pre); free(suf); return -1; }   /* pre[i] alone is never tested */
+    }
+    for (int i = 0; i < count; i++) {
+        int32_t p = pre[i], s = suf[i];
+        if (s > 0) memcpy(work + p, in, (size_t)s);
+    }
+    free(pre); free(suf);
+    return 0;
+}
+int signed_off_good(const uint8_t* in, size_t n, uint8_t* work, int count) {
+    int32_t* pre = (int32_t*)malloc(sizeof(int32_t) * (size_t)count);
+    int32_t* suf = (int32_t*)malloc(sizeof(int32_t) * (size_t)count);
+    if (!pre || !suf) { free(pre); free(suf); return -1; }
+    ctl_decode_i32(in, n, pre, count);
+    ctl_decode_i32(in, n, suf, count);
+    for (int i = 0; i < count; i++) {
+        if (suf[i] < 0 || pre[i] < 0) { free(pre); free(suf); return -1; }
+    }
+    for (int i = 0; i < count; i++) {
+        int32_t p = pre[i], s = suf[i];
+        if (s > 0) memcpy(work + p, in, (size_t)s);
+    }
+    free(pre); free(suf);
+    return 0;
+}
